@@ -123,6 +123,13 @@ def wrap(
     if offset is None:
         offset = indent
 
+    # textwrap expands tabs and drops the leading blanks of a first line
+    # that has to be broken; do both up front so that the slice
+    # `text[len(first):]` below stays aligned with the text.
+    text = text.expandtabs().lstrip(" \t\v\f\r\x1c\x1d\x1e\x1f")
+    if not text:
+        return ""
+
     # Protocol buffers preserves single initial spaces after line breaks
     # when parsing comments (such as the space before the "w" in "when" here).
     # Re-wrapping causes these to be two spaces; correct for this.
